@@ -519,6 +519,23 @@ def a5(prog, ctx):
             ctx.ok("A5", "new_key fills the appended entry (%s)" % callee, cs[0].where, "index key_file->length - 1 after key_file_append()")
         else:
             ctx.fail("A5", "new_key fills the appended entry (%s)" % callee, n.where, "index %s" % [render(c.call_args()[1]) for c in cs], key="newkey-%s" % callee)
+    # ... and leaves it there: the caller stores the value at `length - 1`, so nothing between the append and the return may move entries
+    moved = []
+    for c in n.calls(("memmove", "memcpy", "qsort", "mempcpy")):
+        if any("file_entry" in render(a) for a in c.call_args()):
+            moved.append((c, "%s() over the entry array" % c.j.get("callee")))
+    for lhs, rhs, st, kind in query.stores(n):
+        l0 = lhs.strip()
+        if l0.k == "ArraySubscriptExpr" and render(l0.children[0]).endswith("file_entry") and "file_entry" in (l0.j.get("t") or l0.j.get("ct") or ""):
+            moved.append((st, "whole entry stored: %s" % render(st)[:80]))
+    if moved and good:
+        ctx.fail("A5", "new_key leaves the new entry at the end", moved[0][0].where,
+                 "%s: the entry new_key() created is no longer the last one, but setKeyValue() stores the value at `kf->length - 1` - the value lands in another "
+                 "key and the new key stays without value" % moved[0][1], key="newkey-moved")
+    elif moved:
+        ctx.inconclusive("A5", "new_key leaves the new entry at the end", moved[0][0].where, moved[0][1])
+    else:
+        ctx.ok("A5", "new_key leaves the new entry at the end", n.where, "no entry is moved after key_file_append(); the caller's index `length - 1` is the new entry")
 
 
 def a6(prog, ctx, defs):
